@@ -55,7 +55,11 @@ type c19KeysCase struct {
 	Servers []c19KeySrv  `json:"servers"`
 	Progs   [][]c19KeyOp `json:"progs"`
 	DB      bool         `json:"db"` // the key database returns what was stored (otherwise it only accepts writes)
-	Sched   []c19Step    `json:"sched"`
+	// Free: the key client answers at once instead of parking (used by C19/keys-wide, where one
+	// batch names more servers than the fetcher has workers, so that not every request can be
+	// in flight at the same time); FetchKeys begin / end and operation starts still park.
+	Free  bool      `json:"free,omitempty"`
+	Sched []c19Step `json:"sched"`
 }
 
 var c19KeyFaults = []string{"ok", "ok", "ok", "err+notary-ok", "bad+notary-ok", "err+notary-err", "bad+notary-missing", "err+notary-other"}
@@ -287,13 +291,40 @@ func (w *c19KeysWorld) notary(name string) c19KeyResp {
 
 // c19KeyClient parks on the scheduler when s != nil, answers at once otherwise (sequential reference).
 type c19KeyClient struct {
-	s *c19Sched
-	w *c19KeysWorld
+	s    *c19Sched
+	w    *c19KeysWorld
+	free bool
+	mu   sync.Mutex
+	// free mode: goroutine id -> server -> GetServerKeys calls since the goroutine's FetchKeys began
+	asked map[int]map[string]int
+}
+
+func (k *c19KeyClient) note(gid int, server string) {
+	k.mu.Lock()
+	defer k.mu.Unlock()
+	if k.asked == nil {
+		k.asked = map[int]map[string]int{}
+	}
+	if k.asked[gid] == nil {
+		k.asked[gid] = map[string]int{}
+	}
+	k.asked[gid][server]++
+}
+
+func (k *c19KeyClient) takeAsked(gid int) map[string]int {
+	k.mu.Lock()
+	defer k.mu.Unlock()
+	out := k.asked[gid]
+	delete(k.asked, gid)
+	return out
 }
 
 func (k *c19KeyClient) GetServerKeys(ctx context.Context, server spec.ServerName) (ServerKeys, error) {
-	if k.s == nil {
+	if k.s == nil || k.free {
 		c19Beat()
+		if k.free {
+			k.note(c19Gid(ctx), string(server))
+		}
 		r, _ := k.w.direct(string(server))
 		return r.keys, r.err
 	}
@@ -303,7 +334,7 @@ func (k *c19KeyClient) GetServerKeys(ctx context.Context, server spec.ServerName
 }
 
 func (k *c19KeyClient) LookupServerKeys(ctx context.Context, server spec.ServerName, _ map[PublicKeyLookupRequest]spec.Timestamp) ([]ServerKeys, error) {
-	if k.s == nil {
+	if k.s == nil || k.free {
 		c19Beat()
 		r := k.w.notary(string(server))
 		return r.list, r.err
@@ -384,19 +415,25 @@ func (d *c19KeyDB) StoreKeys(_ context.Context, results map[PublicKeyLookupReque
 }
 
 func (w *c19KeysWorld) ring(s *c19Sched) (*KeyRing, *c19Fetcher) {
+	r, f, _ := w.ringAndClient(s)
+	return r, f
+}
+
+func (w *c19KeysWorld) ringAndClient(s *c19Sched) (*KeyRing, *c19Fetcher, *c19KeyClient) {
 	local := map[string]bool{}
 	for i, sv := range w.c.Servers {
 		if sv.Local {
 			local[c19SrvName(i)] = true
 		}
 	}
+	client := &c19KeyClient{s: s, w: w, free: s != nil && w.c.Free}
 	inner := &DirectKeyFetcher{
-		Client:            &c19KeyClient{s: s, w: w},
+		Client:            client,
 		IsLocalServerName: func(n spec.ServerName) bool { return local[string(n)] },
 		LocalPublicKey:    spec.Base64Bytes(w.local.Public().(ed25519.PublicKey)),
 	}
 	f := &c19Fetcher{s: s, inner: inner}
-	return &KeyRing{KeyFetchers: []KeyFetcher{f}, KeyDatabase: &c19KeyDB{m: map[PublicKeyLookupRequest]PublicKeyLookupResult{}, readable: w.c.DB}}, f
+	return &KeyRing{KeyFetchers: []KeyFetcher{f}, KeyDatabase: &c19KeyDB{m: map[PublicKeyLookupRequest]PublicKeyLookupResult{}, readable: w.c.DB}}, f, client
 }
 
 type c19KeyOpRes struct {
@@ -496,7 +533,7 @@ func c19KeysRun(out *c19Out, raw []byte) {
 
 	// ---- concurrent run
 	s := c19NewSched(out, c.Sched)
-	ring, f := w.ring(s)
+	ring, f, client := w.ringAndClient(s)
 	k := len(c.Progs)
 	results := make([][]c19KeyOpRes, k)
 	for g := 0; g < k; g++ {
@@ -574,8 +611,8 @@ func c19KeysRun(out *c19Out, raw []byte) {
 			case "fetchbegin":
 				rec := p.Info.(*c19FetchRec)
 				fetches[p.Gid] = &fetchState{rec: rec, remaining: len(rec.Servers), asked: map[string]bool{}}
-				if len(rec.Servers) == 0 {
-					want[p.Gid]++
+				if len(rec.Servers) == 0 || c.Free {
+					want[p.Gid]++ // the next event of this goroutine is the end of the FetchKeys call
 				} else {
 					want[p.Gid] += len(rec.Servers)
 				}
@@ -604,6 +641,20 @@ func c19KeysRun(out *c19Out, raw []byte) {
 				rec := p.Info.(*c19FetchRec)
 				allFetches = append(allFetches, rec)
 				delete(fetches, p.Gid)
+				if c.Free {
+					asked := client.takeAsked(p.Gid)
+					for _, name := range rec.Servers {
+						if asked[name] != 1 {
+							out.Fail("C19/keys/server-not-asked-exactly-once", "goroutine %d: FetchKeys over %d servers asked %s %d times", p.Gid, len(rec.Servers), name, asked[name])
+							break
+						}
+						delete(asked, name)
+					}
+					for name := range asked {
+						out.Fail("C19/keys/key-client-asked-outside-the-request", "goroutine %d: GetServerKeys(%s) although the FetchKeys call did not name it", p.Gid, name)
+						break
+					}
+				}
 				want[p.Gid]++
 				rels = append(rels, rel{p, nil})
 			}
@@ -673,7 +724,12 @@ func c19KeysRun(out *c19Out, raw []byte) {
 	if s.maxParked["notary"] > inflight {
 		inflight = s.maxParked["notary"]
 	}
-	if inflight >= 2 {
+	if c.Free {
+		out.Class("window/free-running-key-client")
+		if k >= 2 {
+			out.NonTrivial()
+		}
+	} else if inflight >= 2 {
 		out.Class("window/2+-key-requests-in-flight")
 		out.NonTrivial()
 	} else {
@@ -739,7 +795,7 @@ func c19KeysCheck(ctx *vfCtx, c c19KeysCase) { c19Check(ctx, "keys", c) }
 var c19WideSizes = []int{63, 64, 65, 66, 100, 130}
 
 func c19KeysWideCase(n int, kind string, db bool) c19KeysCase {
-	c := c19KeysCase{DB: db}
+	c := c19KeysCase{DB: db, Free: true}
 	faults := []string{"ok", "err+notary-ok", "ok", "bad+notary-ok", "ok", "err+notary-err", "ok", "bad+notary-missing", "ok", "err+notary-other"}
 	// server 0 is the local one: the batch names n distinct NON-local servers
 	c.Servers = append(c.Servers, c19KeySrv{Fault: "ok", NKeys: 1, Local: true})
